@@ -263,6 +263,16 @@ impl Monitor for C16 {
         }
         let desc = format!("{} ELF, {}", origin, what.join("; "));
         col.publish(&sigkey, &desc);
+        // Miri cannot simulate a failing allocation: a request of petabytes ends the interpreter ("resource
+        // exhaustion") instead of returning null. Those inputs are left to the native and ASan runs.
+        if cfg!(miri) {
+            if let Some(ph) = elfgen::parse_phdrs(&bytes) {
+                if ph.iter().any(|p| p.memsz > (64 << 20) || p.filesz > (64 << 20)) {
+                    col.count("skipped_under_miri_huge_segment", 1);
+                    return;
+                }
+            }
+        }
         crate::alloc::reset_max();
         let res = call(|| Axecutor::from_binary(&bytes));
         let max_req = crate::alloc::max_request();
